@@ -56,6 +56,14 @@ TO_DICT = [(PL, "Pipeline.to_dict", "Pipeline"), (PL, "Operator.to_dict", "Opera
            (AS, "ExecutionResult.to_dict", "ExecutionResult")]
 
 
+def response_name(rs: Func) -> str:
+    """the local bound to <post result>.json()"""
+    for n in own_nodes(rs.node):
+        if isinstance(n, ast.Assign) and isinstance(n.targets[0], ast.Name) and isinstance(n.value, ast.Call) and norm.call_name(n.value) == "json":
+            return n.targets[0].id
+    return "response"
+
+
 def check_keys(ctx, num=1):
     P = ctx.P
     src = P.go.get("go/eudoxia/types.go")
@@ -83,7 +91,9 @@ def check_keys(ctx, num=1):
                detail=f"python: {keys}; go: {gk}")
     ri = P.fn(REST, "rest_init")
     ctx.touch(ri)
-    ip = [n for n in own_nodes(ri.node) if isinstance(n, ast.Assign) and isinstance(n.value, ast.Dict) and isinstance(n.targets[0], ast.Name) and n.targets[0].id == "payload"]
+    ipost = [c for c in calls_named(ri, "post")]
+    ipn = norm.U(norm.kwarg(ipost[0], "json")) if ipost and norm.kwarg(ipost[0], "json") is not None else "payload"
+    ip = [n for n in own_nodes(ri.node) if isinstance(n, ast.Assign) and isinstance(n.value, ast.Dict) and isinstance(n.targets[0], ast.Name) and n.targets[0].id == ipn]
     keys = [k.value for k in ip[0].value.keys if isinstance(k, ast.Constant)] if ip else None
     ctx.ob(num, "K5", "the init request has exactly the keys of the Go struct InitRequest", keys == [k for _, k, _ in gs["InitRequest"]], ri, ip[0] if ip else ri.node,
            construct="init payload keys vs Go InitRequest", detail=f"python: {keys}; go: {[k for _, k, _ in gs['InitRequest']]}")
@@ -101,8 +111,9 @@ def check_keys(ctx, num=1):
         ctx.ob(num, "K5", f"no key that {fn_} reads by subscript is omitempty on the Go side (a zero value would vanish and raise KeyError)", not (read & om), f, f.node,
                construct=f"omitempty in Go {st}", detail=f"omitempty keys: {sorted(om)}")
     rr = set()
+    rname = response_name(rs)
     for n in own_nodes(rs.node):
-        if isinstance(n, ast.Subscript) and norm.is_name(n.value, "response") and isinstance(n.slice, ast.Constant):
+        if isinstance(n, ast.Subscript) and norm.is_name(n.value, rname) and isinstance(n.slice, ast.Constant):
             rr.add(n.slice.value)
     gk = {k for _, k, _ in gs["ScheduleResponse"]}
     om = {k for _, k, o in gs["ScheduleResponse"] if o}
@@ -226,7 +237,7 @@ def check_protocol(ctx):
                     writes.append(n)
         if isinstance(n, ast.Call) and isinstance(n.func, ast.Attribute) and norm.U(n.func.value) == other and n.func.attr in ("update", "pop", "clear", "setdefault", "popitem"):
             writes.append(poolmod.stmt_of(n))
-    ctx.count_min("writes to other_pipelines in rest_scheduler", len(writes), 2)
+    ctx.count_min("writes to other_pipelines in rest_scheduler", len(writes), 1)
     for w in writes:
         after = g.dominates(post, w)
         ctx.ob(3, "K3", "the set of known pipelines is modified only after the call was made (so new and previously known pipelines in a payload are disjoint, and nothing "
@@ -310,10 +321,11 @@ def check_protocol(ctx):
         ok = isinstance(r.value, ast.Tuple) and len(r.value.elts) == 2
         if ok:
             a, b = (norm.U(norm.subst(e, env)) for e in r.value.elts)
-            rdefs = [n for n in own_nodes(f.node) if isinstance(n, ast.Assign) and norm.is_name(n.targets[0], "response")]
+            rname = response_name(f)
+            rdefs = [n for n in own_nodes(f.node) if isinstance(n, ast.Assign) and norm.is_name(n.targets[0], rname)]
             rj = len(rdefs) == 1 and isinstance(rdefs[0].value, ast.Call) and norm.call_name(rdefs[0].value) == "json" and isinstance(parent(post), ast.Assign) \
                 and norm.U(rdefs[0].value.func.value) == norm.U(parent(post).targets[0])
-            ok = rj and a == "_parse_suspensions(response['suspensions'])" and b == f"_parse_assignments({s_p}, response['assignments'])"
+            ok = rj and a == f"_parse_suspensions({rname}['suspensions'])" and b == f"_parse_assignments({s_p}, {rname}['assignments'])"
             d = f"({a}, {b})"
         else:
             d = norm.U(r.value)
@@ -418,8 +430,33 @@ def check_true_state(ctx, num=6):
             if not isinstance(k, ast.Constant) or (q, k.value) not in want:
                 continue
             got = norm.U(norm.subst(v, env))
-            ok = got in want[(q, k.value)] or _same_comp(got, want[(q, k.value)]) or _same_gen(got, want[(q, k.value)])
+            ok = got in want[(q, k.value)] or _same_comp(got, want[(q, k.value)]) or _same_gen(got, want[(q, k.value)]) or \
+                _canon_cmp(got) in {_canon_cmp(w) for w in want[(q, k.value)]}
             ctx.ob(num, "K6", f"{q}[{k.value!r}] is the object's live {k.value}", ok, f, v, construct=f"{q}[{k.value}]", detail=f"{got}")
+
+
+def _canon_cmp(t: str) -> str:
+    """orientation-independent text: every comparison replaced by its normal form (a > b == b < a, == operands sorted); bound variables renamed."""
+    try:
+        e = ast.parse(t, mode="eval").body
+    except SyntaxError:
+        return t
+
+    class T(ast.NodeTransformer):
+        def visit_Compare(self, n):
+            self.generic_visit(n)
+            if len(n.ops) == 1:
+                f = norm.nnf(n)
+                if f[0] == "cmp":
+                    return ast.Name(f"<{f[1]}|{f[2]}|{f[3]}>", ast.Load())
+            return n
+    for n in ast.walk(e):
+        if isinstance(n, (ast.ListComp, ast.GeneratorExp)) and len(n.generators) == 1 and isinstance(n.generators[0].target, ast.Name):
+            old = n.generators[0].target.id
+            for m in ast.walk(n):
+                if isinstance(m, ast.Name) and m.id == old:
+                    m.id = "_v"
+    return ast.unparse(T().visit(e))
 
 
 def _same_gen(got: str, wants: List[str]) -> bool:
